@@ -4,6 +4,8 @@ import BeyondVerif.Lemmas.OneStep
 import BeyondVerif.Lemmas.Gravity
 import Mathlib.Analysis.InnerProductSpace.PiL2
 import Mathlib.Analysis.Complex.Exponential
+import Mathlib.Analysis.SpecialFunctions.Trigonometric.Deriv
+import Mathlib.Analysis.SpecialFunctions.Trigonometric.Bounds
 
 /-!
 # C06 — convergence of the modelled propagator (headline clause of the property)
@@ -231,5 +233,318 @@ theorem euler_two_body_converges (mu rmin vmax : ℝ) (hmu : 0 ≤ mu) (hr : 0 <
   rw [hu k hk, hrange k hk.le]
   simp only [rkOnce, rkKs, rkStages, rkCombine, lincomb, butcher_euler, List.drop, List.map, Coords.lift,
     coordsSt.left_inv, accelCentral_coords]
+
+/-! ## RK4: the classical map, its Lipschitz constant, order 4 -/
+
+/-- **on a linear system `y' = A y` one RK4 step is the degree-4 Taylor polynomial of `exp(hA)`** applied to the state
+(`A` any continuous linear map of a normed space — matrices included), so the local error is the remainder of the
+exponential series -/
+theorem rk4_linear_system (A : E →L[ℝ] E) (t : ℝ) (x : E) (h : ℝ) :
+    rk4 (fun _ x => A x) t x h
+      = x + h • A x + (h ^ 2 / 2) • A (A x) + (h ^ 3 / 6) • A (A (A x)) + (h ^ 4 / 24) • A (A (A (A x))) := by
+  simp only [rk4, map_add, map_smul]
+  module
+
+/-- the same for the model's generic step on the regenerated tableau -/
+theorem rkOnce_rk4_linear_system (c : Coords E) (A : E →L[ℝ] E) (t : ℝ) (x : E) (h : ℝ) :
+    rkOnce (c.lift (fun _ x => A x)) butcher_rk4 t (c.toL x) h
+      = c.toL (x + h • A x + (h ^ 2 / 2) • A (A x) + (h ^ 3 / 6) • A (A (A x)) + (h ^ 4 / 24) • A (A (A (A x)))) := by
+  rw [rkOnce_rk4_coords, rk4_linear_system]
+
+/-- `1 + z + z²/2 + z³/6 + z⁴/24 ≤ 1 + (41/24) z` for `0 ≤ z ≤ 1` -/
+theorem rk4_amp_le (z : ℝ) (h0 : 0 ≤ z) (h1 : z ≤ 1) :
+    1 + z + z ^ 2 / 2 + z ^ 3 / 6 + z ^ 4 / 24 ≤ 1 + 41 / 24 * z := by
+  have e2 : z ^ 2 ≤ z := by nlinarith
+  have e3 : z ^ 3 ≤ z := by nlinarith
+  have e4 : z ^ 4 ≤ z := by nlinarith
+  linarith
+
+/-
+FULL STATEMENT (order 4 of the propagator with `method="rk4"`): for `F` of class C⁴ with bounded derivatives along the exact
+solution there is `C` with `‖y(t₀ + n h) − u_n‖ ≤ C h⁴ (e^{ΛT} − 1)/Λ`.
+PROVED below: exactly this, GIVEN the local error bound `hloc` (`‖y(t+h) − rk4 step from y(t)‖ ≤ C h⁵`).
+MISSING: the derivation of `hloc` from `rk4_order4` — Taylor expansion of the exact solution and of the four stages to order 5
+against the elementary differentials of the 8 trees (Butcher's theorem).  It IS derived, and the theorem is then unconditional,
+for linear systems in one variable (`rk4_linear_converges_order4`), where the elementary differentials collapse to powers of λ.
+-/
+/-- **from local to global for the modelled RK4 method, any order `p`**: a local error `≤ C h^{p+1}` along the exact solution
+gives the global error `≤ C h^p (e^{ΛT} − 1)/Λ`, Λ = (41/24) L.  The step is the model's generic `rkOnce` on the regenerated
+`rk4` tableau; `F(t, ·)` globally `L`-Lipschitz, `h L ≤ 1`. -/
+theorem rk4_local_to_global (c : Coords E) (F : ℝ → E → E) (L C : ℝ) (p : ℕ) (hL : 0 < L) (hC : 0 ≤ C)
+    (hF : ∀ s a b, ‖F s a - F s b‖ ≤ L * ‖a - b‖)
+    (y : ℝ → E) (t0 h : ℝ) (n : ℕ) (hh : 0 < h) (hz : h * L ≤ 1)
+    (hloc : ∀ k < n, ‖y (t0 + ((k + 1 : ℕ) : ℝ) * h) - rk4 F (t0 + k * h) (y (t0 + k * h)) h‖ ≤ C * h ^ (p + 1))
+    (u : ℕ → List ℝ) (hu0 : u 0 = c.toL (y t0))
+    (hu : ∀ k < n, u (k + 1) = rkOnce (c.lift F) butcher_rk4 (t0 + k * h) (u k) h) :
+    ‖y (t0 + n * h) - c.ofL (u n)‖ ≤ C * h ^ p * (Real.exp (41 / 24 * L * (n * h)) - 1) / (41 / 24 * L) := by
+  have hrange := run_in_range c (fun k x => rk4 F (t0 + k * h) x h) u (y t0) n hu0
+    (fun k hk x hx => by rw [hu k hk, hx, rkOnce_rk4_coords])
+  have key := one_step_convergence (fun k x => rk4 F (t0 + k * h) x h) (fun k => y (t0 + k * h)) (fun k => c.ofL (u k))
+    (41 / 24 * L) h C p n (by positivity) hh hC (by simp [hu0, c.left_inv]) ?_ ?_ ?_
+  · exact key
+  · intro k hk
+    show c.ofL (u (k + 1)) = rk4 F (t0 + k * h) (c.ofL (u k)) h
+    rw [hu k hk, hrange k hk.le, rkOnce_rk4_coords, c.left_inv, c.left_inv]
+  · intro k hk
+    exact hloc k hk
+  · intro k hk
+    have hzl : 0 ≤ h * L := by positivity
+    refine (rk4_step_lipschitz F L h hh.le hL.le hF _ _ _).trans ?_
+    apply mul_le_mul_of_nonneg_right _ (norm_nonneg _)
+    have := rk4_amp_le (h * L) hzl hz
+    linarith
+
+/-- **global error of the modelled RK4 method is of order 4, given the local order 5** (`_partial`, see above) -/
+theorem rk4_global_error_partial (c : Coords E) (F : ℝ → E → E) (L C : ℝ) (hL : 0 < L) (hC : 0 ≤ C)
+    (hF : ∀ s a b, ‖F s a - F s b‖ ≤ L * ‖a - b‖)
+    (y : ℝ → E) (t0 h : ℝ) (n : ℕ) (hh : 0 < h) (hz : h * L ≤ 1)
+    (hloc : ∀ k < n, ‖y (t0 + ((k + 1 : ℕ) : ℝ) * h) - rk4 F (t0 + k * h) (y (t0 + k * h)) h‖ ≤ C * h ^ 5)
+    (u : ℕ → List ℝ) (hu0 : u 0 = c.toL (y t0))
+    (hu : ∀ k < n, u (k + 1) = rkOnce (c.lift F) butcher_rk4 (t0 + k * h) (u k) h) :
+    ‖y (t0 + n * h) - c.ofL (u n)‖ ≤ C * h ^ 4 * (Real.exp (41 / 24 * L * (n * h)) - 1) / (41 / 24 * L) :=
+  rk4_local_to_global c F L C 4 hL hC hF y t0 h n hh hz hloc u hu0 hu
+
+/-- **the modelled RK4 method converges** (unconditionally, at least at first order) for every autonomous field that is
+globally `L`-Lipschitz and bounded by `B`: `‖y(t₀ + n h) − u_n‖ ≤ L B h (e^{ΛT} − 1)/Λ → 0` as `h → 0` with `n h = T` fixed.
+(Order 4 is `rk4_global_error_partial`.  The two-body field is Lipschitz and bounded on `‖r‖ ≥ r_min` only: this theorem
+applies to it after a cut-off inside `r_min`, which no trajectory of the property's domain enters.) -/
+theorem rk4_converges (c : Coords E) (F : E → E) (L B : ℝ) (hL : 0 < L)
+    (hF : ∀ a b, ‖F a - F b‖ ≤ L * ‖a - b‖) (hB : ∀ a, ‖F a‖ ≤ B)
+    (y : ℝ → E) (t0 h : ℝ) (n : ℕ) (hh : 0 < h) (hz : h * L ≤ 1)
+    (hy : ∀ s ∈ Icc t0 (t0 + n * h), HasDerivAt y (F (y s)) s)
+    (u : ℕ → List ℝ) (hu0 : u 0 = c.toL (y t0))
+    (hu : ∀ k < n, u (k + 1) = rkOnce (c.lift (fun _ => F)) butcher_rk4 (t0 + k * h) (u k) h) :
+    ‖y (t0 + n * h) - c.ofL (u n)‖ ≤ L * B * h ^ 1 * (Real.exp (41 / 24 * L * (n * h)) - 1) / (41 / 24 * L) := by
+  have hB0 : 0 ≤ B := (norm_nonneg _).trans (hB (y t0))
+  refine rk4_local_to_global c (fun _ => F) L (L * B) 1 hL (by positivity) (fun _ => hF) y t0 h n hh hz ?_ u hu0 hu
+  intro k hk
+  have hsub : Icc (t0 + k * h) (t0 + k * h + h) ⊆ Icc t0 (t0 + n * h) := by
+    intro s hs
+    have hk' : (k : ℝ) + 1 ≤ n := by exact_mod_cast hk
+    have h1 : 0 ≤ (k : ℝ) * h := by positivity
+    constructor
+    · linarith [hs.1]
+    · nlinarith [hs.2]
+  have e : t0 + ((k + 1 : ℕ) : ℝ) * h = t0 + k * h + h := by push_cast; ring
+  rw [e]
+  have l1 := euler_local_error_ode F Set.univ L B hL.le (fun x _ => hB x) (fun x _ x' _ => hF x x') y (t0 + k * h) h hh.le
+    (fun s hs => hy s (hsub hs)) (fun _ _ => Set.mem_univ _)
+  have l2 := rk4_sub_euler F L B h hh.le hL.le hF hB (t0 + k * h) (y (t0 + k * h))
+  have tri : y (t0 + k * h + h) - rk4 (fun _ => F) (t0 + k * h) (y (t0 + k * h)) h
+      = (y (t0 + k * h + h) - (y (t0 + k * h) + h • F (y (t0 + k * h))))
+        - (rk4 (fun _ => F) (t0 + k * h) (y (t0 + k * h)) h - (y (t0 + k * h) + h • F (y (t0 + k * h)))) := by abel
+  rw [tri]
+  calc _ ≤ ‖y (t0 + k * h + h) - (y (t0 + k * h) + h • F (y (t0 + k * h)))‖
+        + ‖rk4 (fun _ => F) (t0 + k * h) (y (t0 + k * h)) h - (y (t0 + k * h) + h • F (y (t0 + k * h)))‖ := norm_sub_le _ _
+    _ ≤ L * B * h ^ 2 / 2 + L * B * h ^ 2 / 2 := add_le_add l1 l2
+    _ = L * B * h ^ (1 + 1) := by ring
+
+/-- `|e^z − (1 + z + z²/2 + z³/6 + z⁴/24)| ≤ |z|⁵/100` for `|z| ≤ 1` (remainder of the exponential series) -/
+theorem exp_sub_taylor4 (z : ℝ) (hz : |z| ≤ 1) :
+    |Real.exp z - (1 + z + z ^ 2 / 2 + z ^ 3 / 6 + z ^ 4 / 24)| ≤ |z| ^ 5 / 100 := by
+  have h := Real.exp_bound hz (n := 5) (by norm_num)
+  simp only [Finset.sum_range_succ, Finset.sum_range_zero, Nat.factorial, Nat.succ_eq_add_one] at h
+  norm_num at h
+  convert h using 2; ring
+
+/-- **the modelled RK4 method converges at order 4 on the linear test equation `y' = λ y`** — the whole chain, no hypothesis
+left: the step on the regenerated tableau multiplies by the degree-4 Taylor polynomial of `e^{hλ}` (`linear_test_rk4`), the
+local error is the exp remainder `≤ |y| |hλ|⁵/100`, the step is `(1 + (41/24) h|λ|)`-Lipschitz, discrete Gronwall.
+`|y₀ e^{λ n h} − u_n| ≤ C h⁴ (e^{Λ n h} − 1)/Λ`, `C = |y₀| e^{|λ| n h} |λ|⁵/100`, `Λ = (41/24)|λ|`. -/
+theorem rk4_linear_converges_order4 (lam y0 t0 h : ℝ) (n : ℕ) (hh : 0 < h) (hlam : lam ≠ 0) (hz : h * |lam| ≤ 1)
+    (u : ℕ → List ℝ) (hu0 : u 0 = [y0])
+    (hu : ∀ k < n, u (k + 1) = rkOnce (fun _ l => KN.smul lam l) butcher_rk4 (t0 + k * h) (u k) h) :
+    |y0 * Real.exp (lam * (n * h)) - (u n).getD 0 0|
+      ≤ (|y0| * Real.exp (|lam| * (n * h)) * |lam| ^ 5 / 100) * h ^ 4
+          * (Real.exp (41 / 24 * |lam| * (n * h)) - 1) / (41 / 24 * |lam|) := by
+  set R := 1 + h * lam + (h * lam) ^ 2 / 2 + (h * lam) ^ 3 / 6 + (h * lam) ^ 4 / 24 with hR
+  have hl : 0 < |lam| := abs_pos.2 hlam
+  have hzabs : |h * lam| ≤ 1 := by rw [abs_mul, abs_of_pos hh]; exact hz
+  -- the run is scalar
+  have hrun : ∀ k ≤ n, u k = [(u k).getD 0 0] := by
+    intro k
+    induction k with
+    | zero => intro _; rw [hu0]; rfl
+    | succ m ih =>
+      intro hm
+      rw [hu m (Nat.lt_of_succ_le hm), ih (Nat.le_of_succ_le hm), linear_test_rk4]; rfl
+  have hstep : ∀ k < n, (u (k + 1)).getD 0 0 = (u k).getD 0 0 * R := by
+    intro k hk
+    rw [hu k hk, hrun k hk.le, linear_test_rk4]; rfl
+  have hRabs : |R| ≤ 1 + h * (41 / 24 * |lam|) := by
+    have h1 : |R| ≤ 1 + |h * lam| + |h * lam| ^ 2 / 2 + |h * lam| ^ 3 / 6 + |h * lam| ^ 4 / 24 := by
+      rw [hR]
+      have t1 := abs_add_le (1 + h * lam + (h * lam) ^ 2 / 2 + (h * lam) ^ 3 / 6) ((h * lam) ^ 4 / 24)
+      have t2 := abs_add_le (1 + h * lam + (h * lam) ^ 2 / 2) ((h * lam) ^ 3 / 6)
+      have t3 := abs_add_le (1 + h * lam) ((h * lam) ^ 2 / 2)
+      have t4 := abs_add_le 1 (h * lam)
+      have p2 : |(h * lam) ^ 2 / 2| = |h * lam| ^ 2 / 2 := by rw [abs_div, abs_pow]; norm_num
+      have p3 : |(h * lam) ^ 3 / 6| = |h * lam| ^ 3 / 6 := by rw [abs_div, abs_pow]; norm_num
+      have p4 : |(h * lam) ^ 4 / 24| = |h * lam| ^ 4 / 24 := by rw [abs_div, abs_pow]; norm_num
+      have p1 : |(1 : ℝ)| = 1 := abs_one
+      linarith
+    have h2 := rk4_amp_le |h * lam| (abs_nonneg _) hzabs
+    have h3 : |h * lam| = h * |lam| := by rw [abs_mul, abs_of_pos hh]
+    rw [h3] at h1 h2
+    linarith
+  have key := one_step_convergence (E := ℝ) (fun _ x => x * R) (fun k => y0 * Real.exp (lam * (k * h)))
+    (fun k => (u k).getD 0 0) (41 / 24 * |lam|) h (|y0| * Real.exp (|lam| * (n * h)) * |lam| ^ 5 / 100) 4 n
+    (by positivity) hh (by positivity) (by simp [hu0]) hstep ?_ ?_
+  · simpa [Real.norm_eq_abs] using key
+  · intro k hk
+    have hk' : (k : ℝ) ≤ n := by exact_mod_cast hk.le
+    have e : y0 * Real.exp (lam * (((k + 1 : ℕ) : ℝ) * h)) - y0 * Real.exp (lam * (k * h)) * R
+        = y0 * Real.exp (lam * (k * h)) * (Real.exp (h * lam) - R) := by
+      have : lam * (((k + 1 : ℕ) : ℝ) * h) = lam * (k * h) + h * lam := by push_cast; ring
+      rw [this, Real.exp_add]; ring
+    rw [Real.norm_eq_abs, e, abs_mul, abs_mul, Real.abs_exp]
+    have b1 : Real.exp (lam * (k * h)) ≤ Real.exp (|lam| * (n * h)) := by
+      apply Real.exp_le_exp.2
+      have : lam * (k * h) ≤ |lam| * (k * h) := mul_le_mul_of_nonneg_right (le_abs_self _) (by positivity)
+      have : |lam| * (k * h) ≤ |lam| * (n * h) := by gcongr
+      linarith
+    have b2 : |Real.exp (h * lam) - R| ≤ |h * lam| ^ 5 / 100 := exp_sub_taylor4 (h * lam) hzabs
+    have b3 : |h * lam| ^ 5 = |lam| ^ 5 * h ^ 5 := by rw [abs_mul, abs_of_pos hh]; ring
+    calc |y0| * Real.exp (lam * (k * h)) * |Real.exp (h * lam) - R|
+        ≤ |y0| * Real.exp (|lam| * (n * h)) * (|h * lam| ^ 5 / 100) := by gcongr
+      _ = |y0| * Real.exp (|lam| * (n * h)) * |lam| ^ 5 / 100 * h ^ (4 + 1) := by rw [b3]; ring
+  · intro k hk
+    rw [Real.norm_eq_abs, Real.norm_eq_abs, ← sub_mul, abs_mul, mul_comm]
+    exact mul_le_mul_of_nonneg_right hRabs (abs_nonneg _)
+
+/-! ## The field: gradient of the potential, first integrals along solutions of the MODELLED equation -/
+
+/-- **the regenerated attraction is the gradient of `µ/‖r‖`** (away from the centre) -/
+theorem accel_is_gradient (mu : ℝ) (s : St) (hr : s.1 ≠ 0) :
+    HasGradientAt (fun r : V3 => mu / ‖r‖) (coordsSt.ofL (accelCentral mu (coordsSt.toL s))).2 s.1 := by
+  rw [accelCentral_coords, coordsSt.left_inv]
+  exact hasGradientAt_potential mu s.1 hr
+
+/-- **energy is a first integral**: along ANY solution of `(r, v)' = _accel(r, v)` (the regenerated field, central body at the
+origin) `d/dt (‖v‖²/2 − µ/‖r‖) = 0` while `r ≠ 0` -/
+theorem energy_first_integral (mu : ℝ) (y : ℝ → St) (t : ℝ)
+    (hy : HasDerivAt y (coordsSt.ofL (accelCentral mu (coordsSt.toL (y t)))) t) (h0 : (y t).1 ≠ 0) :
+    HasDerivAt (fun s => ‖(y s).2‖ ^ 2 / 2 - mu / ‖(y s).1‖) 0 t := by
+  rw [accelCentral_coords, coordsSt.left_inv] at hy
+  have h1' := (hasFDerivAt_fst (𝕜 := ℝ) (E := V3) (F := V3) (p := y t)).comp_hasDerivAt t hy
+  have h1 : HasDerivAt (fun s => (y s).1) (y t).2 t := h1'
+  have h2' := (hasFDerivAt_snd (𝕜 := ℝ) (E := V3) (F := V3) (p := y t)).comp_hasDerivAt t hy
+  have h2 : HasDerivAt (fun s => (y s).2) (grav mu (y t).1) t := h2'
+  exact energy_hasDerivAt_zero mu (fun s => (y s).1) (fun s => (y s).2) t h1 h2 h0
+
+/-- **angular momentum is a first integral**: along any solution of the modelled equation every component
+`rᵢ vⱼ − rⱼ vᵢ` of `r × v` has derivative 0 (no hypothesis on `r`: the model's `x/0 = 0` keeps the field central) -/
+theorem angular_momentum_first_integral (mu : ℝ) (y : ℝ → St) (t : ℝ)
+    (hy : HasDerivAt y (coordsSt.ofL (accelCentral mu (coordsSt.toL (y t)))) t) (i j : Fin 3) :
+    HasDerivAt (fun s => (y s).1 i * (y s).2 j - (y s).1 j * (y s).2 i) 0 t := by
+  rw [accelCentral_coords, coordsSt.left_inv] at hy
+  have h1' := (hasFDerivAt_fst (𝕜 := ℝ) (E := V3) (F := V3) (p := y t)).comp_hasDerivAt t hy
+  have h1 : HasDerivAt (fun s => (y s).1) (y t).2 t := h1'
+  have h2' := (hasFDerivAt_snd (𝕜 := ℝ) (E := V3) (F := V3) (p := y t)).comp_hasDerivAt t hy
+  have h2 : HasDerivAt (fun s => (y s).2) ((-(mu / ‖(y t).1‖ ^ 3)) • (y t).1) t := h2'
+  have h := angular_momentum_hasDerivAt_zero (-(mu / ‖(y t).1‖ ^ 3)) (fun s => (y s).1) (fun s => (y s).2) t
+    (EuclideanSpace.single i (1 : ℝ)) (EuclideanSpace.single j (1 : ℝ)) h1 h2
+  simpa [EuclideanSpace.inner_single_right] using h
+
+/-! ## Non-vacuity: the hypotheses above are met by concrete, non-trivial values -/
+
+/-- Gronwall: `e k = 2^k − 1` obeys `e (k+1) ≤ (1 + 1·1) e k + 1·1²` -/
+example : ((2 : ℝ) ^ 3 - 1) ≤ Real.exp (1 * ((3 : ℕ) * 1)) * 0 + 1 * 1 ^ 1 * (Real.exp (1 * ((3 : ℕ) * 1)) - 1) / 1 := by
+  have := discrete_gronwall 1 1 1 1 one_pos one_pos zero_le_one (fun k => (2 : ℝ) ^ k - 1) 3 (by norm_num)
+    (fun k _ => by simp only [pow_succ]; linarith)
+  simpa using this
+
+/-- Euler on `y' = y`, `y = exp`, one step of 1/2 from 0: every hypothesis of `euler_global_error` holds -/
+example : ‖Real.exp (0 + (1 : ℕ) * (1 / 2)) - coordsReal.ofL (rkOnce (coordsReal.lift fun _ x => x) butcher_euler 0 [1] (1 / 2))‖
+    ≤ Real.exp 1 / 2 * (1 / 2) * (Real.exp (1 * ((1 : ℕ) * (1 / 2))) - 1) := by
+  have := euler_global_error coordsReal (fun x => x) {x | |x| ≤ Real.exp 1} 1 (Real.exp 1) one_pos (Real.exp_pos 1).le
+    (fun x hx => hx) (fun x _ x' _ => by simp) Real.exp 0 (1 / 2) 1 (by norm_num)
+    (fun s _ => Real.hasDerivAt_exp s)
+    (fun s hs => by
+      show |Real.exp s| ≤ Real.exp 1
+      rw [Real.abs_exp]; apply Real.exp_le_exp.2; have := hs.2; norm_num at this; linarith)
+    (fun k => if k = 0 then [1] else rkOnce (coordsReal.lift fun _ x => x) butcher_euler 0 [1] (1 / 2))
+    (by simp [coordsReal]) (fun k hk => by interval_cases k; simp) (fun k hk => by
+      interval_cases k
+      show |coordsReal.ofL [1]| ≤ Real.exp 1
+      simp only [coordsReal, List.getD_cons_zero, abs_one]
+      linarith [Real.add_one_le_exp 1])
+  simpa using this
+
+/-- the unit circular orbit (µ = 1): `r = (cos s, sin s, 0)`, `v = (−sin s, cos s, 0)` -/
+def circ (s : ℝ) : St :=
+  (Real.cos s • EuclideanSpace.single (0 : Fin 3) (1 : ℝ) + Real.sin s • EuclideanSpace.single (1 : Fin 3) (1 : ℝ),
+   (-Real.sin s) • EuclideanSpace.single (0 : Fin 3) (1 : ℝ) + Real.cos s • EuclideanSpace.single (1 : Fin 3) (1 : ℝ))
+
+theorem circ_norms (s : ℝ) : ‖(circ s).1‖ = 1 ∧ ‖(circ s).2‖ = 1 := by
+  have h10 : (1 : Fin 3) ≠ 0 := by decide
+  have h01 : (0 : Fin 3) ≠ 1 := by decide
+  have h20 : (2 : Fin 3) ≠ 0 := by decide
+  have h21 : (2 : Fin 3) ≠ 1 := by decide
+  constructor
+  · rw [norm_V3]
+    simp only [circ, PiLp.add_apply, PiLp.smul_apply, PiLp.single_apply, smul_eq_mul, h10, h01, h20, h21, if_true, if_false,
+      mul_one, mul_zero, add_zero, zero_add]
+    rw [show Real.cos s ^ 2 + Real.sin s ^ 2 + 0 ^ 2 = 1 by nlinarith [Real.cos_sq_add_sin_sq s], Real.sqrt_one]
+  · rw [norm_V3]
+    simp only [circ, PiLp.add_apply, PiLp.smul_apply, PiLp.single_apply, smul_eq_mul, h10, h01, h20, h21, if_true, if_false,
+      mul_one, mul_zero, add_zero, zero_add]
+    rw [show (-Real.sin s) ^ 2 + Real.cos s ^ 2 + 0 ^ 2 = 1 by nlinarith [Real.cos_sq_add_sin_sq s], Real.sqrt_one]
+
+/-- **the circular orbit solves the MODELLED equation of motion** (`_accel` regenerated from the source, central body at the
+origin, µ = 1): the hypothesis `hy` of `euler_two_body_converges`, `energy_first_integral`, … is satisfiable -/
+theorem circ_solves (s : ℝ) : HasDerivAt circ (coordsSt.ofL (accelCentral 1 (coordsSt.toL (circ s)))) s := by
+  rw [accelCentral_coords, coordsSt.left_inv]
+  have hg : grav 1 (circ s).1 = (-Real.cos s) • EuclideanSpace.single (0 : Fin 3) (1 : ℝ)
+      + (-Real.sin s) • EuclideanSpace.single (1 : Fin 3) (1 : ℝ) := by
+    rw [grav, (circ_norms s).1]
+    simp only [circ]
+    module
+  have h1 : HasDerivAt (fun s => (circ s).1) (circ s).2 s :=
+    ((Real.hasDerivAt_cos s).smul_const _).add ((Real.hasDerivAt_sin s).smul_const _)
+  have h2 : HasDerivAt (fun s => (circ s).2) (grav 1 (circ s).1) s := by
+    rw [hg]
+    exact (((Real.hasDerivAt_sin s).neg).smul_const _).add ((Real.hasDerivAt_cos s).smul_const _)
+  exact h1.prodMk h2
+
+/-- every hypothesis of `euler_two_body_converges` holds for one Euler step of 1/10 along the circular orbit
+(`r_min = 1/2`, `v_max = 2`) -/
+example : ‖circ (0 + (1 : ℕ) * (1 / 10))
+      - coordsSt.ofL (rkOnce (fun _ l => accelCentral 1 l) butcher_euler 0 (coordsSt.toL (circ 0)) (1 / 10))‖
+    ≤ max 2 (1 / (1 / 2) ^ 2) / 2 * (1 / 10) * (Real.exp (max 1 (2 * 1 / (1 / 2) ^ 3) * ((1 : ℕ) * (1 / 10))) - 1) := by
+  have := euler_two_body_converges 1 (1 / 2) 2 zero_le_one (by norm_num) (by norm_num) circ 0 (1 / 10) 1 (by norm_num)
+    (fun s _ => circ_solves s)
+    (fun s _ => by rw [(circ_norms s).1, (circ_norms s).2]; norm_num)
+    (fun k => if k = 0 then coordsSt.toL (circ 0)
+      else rkOnce (fun _ l => accelCentral 1 l) butcher_euler 0 (coordsSt.toL (circ 0)) (1 / 10))
+    (by simp) (fun k hk => by interval_cases k; simp)
+    (fun k hk => by
+      interval_cases k
+      simp only [if_true, coordsSt.left_inv]
+      rw [(circ_norms 0).1, (circ_norms 0).2]; norm_num)
+  simpa using this
+
+/-- energy and angular momentum are constant on the circular orbit BY the first-integral theorems -/
+example (s : ℝ) : HasDerivAt (fun t => ‖(circ t).2‖ ^ 2 / 2 - 1 / ‖(circ t).1‖) 0 s :=
+  energy_first_integral 1 circ s (circ_solves s) (by
+    intro h; have := (circ_norms s).1; rw [h, norm_zero] at this; norm_num at this)
+example (s : ℝ) : HasDerivAt (fun t => (circ t).1 0 * (circ t).2 1 - (circ t).1 1 * (circ t).2 0) 0 s :=
+  angular_momentum_first_integral 1 circ s (circ_solves s) 0 1
+
+/-- RK4, linear test equation `y' = −y`, two steps of 1/2: the hypotheses of `rk4_linear_converges_order4` hold -/
+example : ∃ u : ℕ → List ℝ, u 0 = [1] ∧
+    (∀ k < 2, u (k + 1) = rkOnce (fun _ l => KN.smul (-1) l) butcher_rk4 (0 + k * (1 / 2)) (u k) (1 / 2)) ∧
+    (1 / 2 : ℝ) * |(-1 : ℝ)| ≤ 1 := by
+  refine ⟨fun k => Nat.rec [1] (fun k uk => rkOnce (fun _ l => KN.smul (-1) l) butcher_rk4 (0 + k * (1 / 2)) uk (1 / 2)) k,
+    rfl, fun k _ => rfl, by norm_num⟩
+
+/-- `rk4_converges`: `y' = sin y` is globally 1-Lipschitz and bounded by 1 -/
+example : (∀ a b : ℝ, ‖Real.sin a - Real.sin b‖ ≤ 1 * ‖a - b‖) ∧ ∀ a : ℝ, ‖Real.sin a‖ ≤ 1 :=
+  ⟨fun a b => by simpa [Real.norm_eq_abs] using Real.abs_sin_sub_sin_le a b, fun a => Real.abs_sin_le_one a⟩
+
+/-- the hypothesis `hloc` of `rk4_global_error_partial` is satisfiable with a non-zero field: for `F(t, x) = 1` the RK4 step
+is exact (`C = 0`) -/
+example (t x h : ℝ) : rk4 (fun _ _ => (1 : ℝ)) t x h = x + h := by
+  simp only [rk4, smul_eq_mul]; ring
 
 end BeyondVerif.C06
